@@ -9,8 +9,10 @@
 //!     drained directly, then the local one: each drain is non-decreasing in the priority the
 //!     item was pushed with (keys survive the move to the shared queue); FIFO across an
 //!     overflow is documented not to hold and is not asserted.
-//!  T  steal scenario: queue A filled (below capacity), queue B drains everything: B's
-//!     sequence is sorted by (priority, push-seq) (keys survive the steal, oldest first).
+//!  T  steal scenario: queue A filled (below capacity), queue B pops, pushes (never beyond its
+//!     capacity) and finally drains everything: with no pushes B's sequence is sorted by
+//!     (priority, push-seq) (keys survive the steal, oldest first); with pushes the statement
+//!     is applied to the items pushed to B.
 //!  P  pool level: CoroutinePool with one worker, <= local capacity tasks with generated
 //!     priorities: observed start order is sorted by (priority, submission index).
 //!  Q  scheduler level: same for coroutines submitted to one Scheduler.
@@ -251,12 +253,28 @@ pub fn scen_strategy() -> impl Strategy<Value = Scen> {
 }
 
 fn scen() -> impl Strategy<Value = Scen> {
-    (
-        prop_oneof![3 => 1u16..=8, 2 => 1u16..=40],
-        proptest::collection::vec(qreal::prio(), 1..120),
-        proptest::collection::vec(prop_oneof![3 => Just(None), 2 => qreal::prio().prop_map(Some)], 0..40),
-    )
-        .prop_map(|(cap, prios, b_ops)| Scen { cap, prios, b_ops })
+    // the thief's program is made of short runs: pops, pushes with a fresh priority, and pushes
+    // with the priority of one of A's items (a priority the thief first meets through a steal)
+    #[derive(Debug, Clone)]
+    enum Seg {
+        Pop,
+        Push(i64),
+        PushLike(u16),
+    }
+    let seg = (prop_oneof![3 => Just(Seg::Pop), 2 => qreal::prio().prop_map(Seg::Push), 3 => any::<u16>().prop_map(Seg::PushLike)], 1usize..=6);
+    (prop_oneof![3 => 1u16..=8, 2 => 1u16..=40], proptest::collection::vec(qreal::prio(), 1..120), proptest::collection::vec(seg, 0..16)).prop_map(|(cap, prios, segs)| {
+        let mut b_ops = vec![];
+        for (sg, n) in segs {
+            for _ in 0..n {
+                b_ops.push(match sg {
+                    Seg::Pop => None,
+                    Seg::Push(p) => Some(p),
+                    Seg::PushLike(ix) => Some(prios[pick(ix, prios.len().min(usize::from(cap)).max(1))]),
+                });
+            }
+        }
+        Scen { cap, prios, b_ops }
+    })
 }
 
 /// O: overflow keeps keys. One local queue, pushes beyond capacity, no pops in between.
@@ -321,7 +339,8 @@ pub fn exec_o(s: &Scen) -> Outcome {
 }
 
 /// T: steals keep keys. A is filled below capacity; then the thief B runs a generated
-/// sequence of pops and pushes (few enough that B never overflows), then drains.
+/// sequence of pops and pushes (a push is issued only while B holds fewer items than its
+/// capacity, so B never overflows; pushes often reuse the priority of an item of A), then drains.
 /// Oracle (the statement, applied to B): a pop on B never returns an item while an item
 /// pushed to B with a strictly smaller priority value is still waiting in B; items pushed
 /// to B with equal priority leave in push order; with no pushes at all B's drain of A is
@@ -331,6 +350,7 @@ pub fn exec_t(s: &Scen) -> Outcome {
     let n = s.prios.len().min(cap);
     let mut fail: Option<(String, String)> = None;
     let mut b_pushed_while_holding_stolen = false;
+    let mut b_pushed_beyond_half = false;
     let ((), _d, stranded) = qreal::with_queue(true, 2, cap, |q| {
         for (i, p) in s.prios.iter().take(n).enumerate() {
             q.lpush(0, *p, i as u32);
@@ -392,10 +412,15 @@ pub fn exec_t(s: &Scen) -> Outcome {
                     let _ = check_pop(got, &mut own, &mut fail, pure);
                 }
                 Some(p) => {
-                    if b_pushes + 1 > cap / 2 {
+                    // the regime of the statement: no more items queued in B than its capacity
+                    // (an overflow moves items to the shared queue, where FIFO is not promised)
+                    if q.local_len(1) >= cap || q.local_len(1) < own.len() {
                         continue;
                     }
                     b_pushes += 1;
+                    if b_pushes > cap / 2 {
+                        b_pushed_beyond_half = true;
+                    }
                     pure = false;
                     if stolen_seen.get() > 0 {
                         b_pushed_while_holding_stolen = true;
@@ -419,7 +444,8 @@ pub fn exec_t(s: &Scen) -> Outcome {
         .nt(n >= 3 && (distinct.len() >= 2 || b_pushed_while_holding_stolen))
         .class_if(distinct.len() < n, "has-tie")
         .class_if(n >= 3, "3+items")
-        .class_if(b_pushed_while_holding_stolen, "thief-pushes-after-a-steal");
+        .class_if(b_pushed_while_holding_stolen, "thief-pushes-after-a-steal")
+        .class_if(b_pushed_beyond_half, "thief-pushed-more-than-half-its-capacity");
     if let Some((a, b)) = fail {
         o.set_fail(a, b);
     }
@@ -579,7 +605,7 @@ pub fn main(args: &Args) -> i32 {
         exec_o,
     ));
     ev.add(vkit::run_prop(
-        &mk("T", "queue A filled below capacity, sibling B drains by stealing; non-trivial = >=3 items and >=2 distinct priorities", args.cases(6_000, 150_000), 8),
+        &mk("T", "queue A filled below capacity, sibling B runs generated runs of pops and pushes (a push only while B holds fewer items than its capacity; priorities fresh or taken from A's items) and drains by stealing; non-trivial = >=3 items and (>=2 distinct priorities or B pushed while holding stolen items)", args.cases(6_000, 150_000), 8),
         scen,
         exec_t,
     ));
